@@ -519,7 +519,10 @@ def run_property(ctx, make_jobs, meta):
                 vals = trace_values(p.get("trace"))
                 reproduced, native_out, cmd = False, "no replay driver for this harness", None
                 try:
-                    if j.replay:
+                    if getattr(j, "static_fn", None) and j.info.get("layer", "").startswith("bounded"):
+                        # the failing fact IS a run of the real, freshly built code on a concrete input (recorded in the detail)
+                        reproduced, native_out, cmd = True, "\n".join("%s\n   %s" % (q["description"], q.get("detail", "")) for q in j.failed)[:6000], [j.info.get("static_cmd", "run of the built binary")]
+                    elif j.replay:
                         reproduced, native_out, cmd = j.replay(ctx, j, p, vals)
                 except Exception as e:  # replay machinery must never mask the violation
                     reproduced, native_out = False, "replay driver error: %r" % (e,)
@@ -531,7 +534,7 @@ def run_property(ctx, make_jobs, meta):
                            info=j.info)
                 seen_jobs[j.name] = rec
                 rec["_path"] = path
-            rec["failed_obligations"].append(dict(obligation=oid, cbmc_property=p["name"], line=p["line"], file=p["file"]))
+            rec["failed_obligations"].append(dict(obligation=oid, cbmc_property=p["name"], line=p["line"], file=p["file"], detail=p.get("detail")))
         for name, rec in seen_jobs.items():
             path = rec.pop("_path")
             try:  # keep the harness text next to the replay record (the work directory is removed)
